@@ -31,8 +31,8 @@ def classFact (e : String × Class × String) : Bool :=
   | .cache => true
   | .scratch => true
 
-set_option maxRecDepth 100000 in
-theorem class_facts : classTable.all classFact = true := by decide
+/-- the fields whose class obligation FAILS on the regenerated lists (empty when the source is sound) -/
+def leaks : List String := (classTable.filter (fun e => !classFact e)).map (·.1)
 
 set_option maxRecDepth 100000 in
 /-- every field of the Go struct has a class -/
@@ -84,9 +84,14 @@ theorem classOf_mem {f : String} {c : Class} (h : classOf f = some c) : ∃ j, (
     subst this; subst h
     exact ⟨j, hm⟩
 
-theorem fact_of_class {f : String} {c : Class} (h : classOf f = some c) : ∃ j, classFact (f, c, j) = true := by
+theorem fact_of_class {f : String} {c : Class} (h : classOf f = some c) (hx : f ∉ leaks) :
+    ∃ j, classFact (f, c, j) = true := by
   obtain ⟨j, hm⟩ := classOf_mem h
-  exact ⟨j, List.all_eq_true.mp class_facts _ hm⟩
+  refine ⟨j, ?_⟩
+  cases hcf : classFact (f, c, j) with
+  | true => rfl
+  | false =>
+    exact absurd (List.mem_map.mpr ⟨(f, c, j), List.mem_filter.mpr ⟨hm, by simp [hcf]⟩, rfl⟩) hx
 
 theorem apply_of_tok {effs : List Eff} {f : String} {t : Tok} (h : resetTok effs f = some t) (s : FState) :
     applyEffects effs s f = t := by simp [applyEffects, h]
@@ -143,24 +148,24 @@ theorem preRun_plain_checkCtx (S : Sem Cfg Result) (cfg : Cfg) (s : FState) :
   simp [h2, apply_of_tok h3]
 
 /-- Immutable fields keep the value `newInterp` gave them. -/
-def Inv (s : FState) : Prop := ∀ f, classOf f = some .immutable → s f = freshState f
+def Inv (s : FState) : Prop := ∀ f, classOf f = some .immutable → f ∉ leaks → s f = freshState f
 
-theorem inv_fresh : Inv freshState := fun _ _ => rfl
+theorem inv_fresh : Inv freshState := fun _ _ _ => rfl
 
-theorem inv_step (S : Sem Cfg Result) (ok : S.Ok) (st : Step Cfg) (s : FState) (h : Inv s) : Inv (stepState S st s) := by
-  intro f hc
-  obtain ⟨j, hf⟩ := fact_of_class hc
+theorem inv_step (S : Sem Cfg Result) (ok : S.Ok leaks) (st : Step Cfg) (s : FState) (h : Inv s) : Inv (stepState S st s) := by
+  intro f hc hx
+  obtain ⟨j, hf⟩ := fact_of_class hc hx
   simp [classFact] at hf
   obtain ⟨⟨⟨⟨hm, hp⟩, hw⟩, hr⟩, hv⟩ := hf
   cases st with
   | exec e cfg =>
     simp only [stepState, exec]
     rw [ok.run_immutable _ _ _ hc, preRun_notMust S e cfg s hm]
-    simp [hc, apply_untouched (untouched_entry e hp hw), h f hc]
-  | resetVars => simp [stepState, apply_untouched hv, h f hc]
-  | resetRand => simp [stepState, apply_untouched hr, h f hc]
+    simp [hc, apply_untouched (untouched_entry e hp hw), h f hc hx]
+  | resetVars => simp [stepState, apply_untouched hv, h f hc hx]
+  | resetRand => simp [stepState, apply_untouched hr, h f hc hx]
 
-theorem inv_history (S : Sem Cfg Result) (ok : S.Ok) (h : List (Step Cfg)) (s : FState) (hs : Inv s) :
+theorem inv_history (S : Sem Cfg Result) (ok : S.Ok leaks) (h : List (Step Cfg)) (s : FState) (hs : Inv s) :
     Inv (runHistory S h s) := by
   induction h generalizing s with
   | nil => exact hs
@@ -169,12 +174,12 @@ theorem inv_history (S : Sem Cfg Result) (ok : S.Ok) (h : List (Step Cfg)) (s : 
 /-- The heart: two states that agree on variables, generator and immutable fields give pre-run states that agree on
 everything observable — whatever else they contain. -/
 theorem preRun_obsEq (S : Sem Cfg Result) (e : Entry) (cfg : Cfg) (s₁ s₂ : FState)
-    (hv : ∀ f, classOf f = some .vars → s₁ f = s₂ f)
-    (hr : ∀ f, classOf f = some .rand → s₁ f = s₂ f)
-    (hi : ∀ f, classOf f = some .immutable → s₁ f = s₂ f) :
-    ObsEq (preRun S e cfg s₁) (preRun S e cfg s₂) := by
-  intro f c hc hobs
-  obtain ⟨j, hf⟩ := fact_of_class hc
+    (hv : ∀ f, classOf f = some .vars → f ∉ leaks → s₁ f = s₂ f)
+    (hr : ∀ f, classOf f = some .rand → f ∉ leaks → s₁ f = s₂ f)
+    (hi : ∀ f, classOf f = some .immutable → f ∉ leaks → s₁ f = s₂ f) :
+    ObsEq leaks (preRun S e cfg s₁) (preRun S e cfg s₂) := by
+  intro f c hc hx hobs
+  obtain ⟨j, hf⟩ := fact_of_class hc hx
   cases c with
   | perRun =>
     simp [classFact] at hf
@@ -191,17 +196,17 @@ theorem preRun_obsEq (S : Sem Cfg Result) (e : Entry) (cfg : Cfg) (s₁ s₂ : F
     simp [classFact] at hf
     obtain ⟨⟨⟨⟨hm, hp⟩, hw⟩, _⟩, _⟩ := hf
     rw [preRun_notMust S e cfg s₁ hm, preRun_notMust S e cfg s₂ hm]
-    simp [hc, apply_untouched (untouched_entry e hp hw), hv f hc]
+    simp [hc, apply_untouched (untouched_entry e hp hw), hv f hc hx]
   | rand =>
     simp [classFact] at hf
     obtain ⟨⟨⟨hm, hp⟩, hw⟩, _⟩ := hf
     rw [preRun_notMust S e cfg s₁ hm, preRun_notMust S e cfg s₂ hm]
-    simp [hc, apply_untouched (untouched_entry e hp hw), hr f hc]
+    simp [hc, apply_untouched (untouched_entry e hp hw), hr f hc hx]
   | immutable =>
     simp [classFact] at hf
     obtain ⟨⟨⟨⟨hm, hp⟩, hw⟩, _⟩, _⟩ := hf
     rw [preRun_notMust S e cfg s₁ hm, preRun_notMust S e cfg s₂ hm]
-    simp [hc, apply_untouched (untouched_entry e hp hw), hi f hc]
+    simp [hc, apply_untouched (untouched_entry e hp hw), hi f hc hx]
   | cache => simp [observable] at hobs
   | scratch => simp [observable] at hobs
   | ctx =>
@@ -226,34 +231,37 @@ theorem preRun_obsEq (S : Sem Cfg Result) (e : Entry) (cfg : Cfg) (s₁ s₂ : F
 
 /-- after ResetVars and ResetRand the variables and the generator are those of a fresh interpreter -/
 theorem reset_vars_rand (s : FState) :
-    (∀ f, classOf f = some .vars → applyEffects resetRandEffects (applyEffects resetVarsEffects s) f = freshState f) ∧
-    (∀ f, classOf f = some .rand → applyEffects resetRandEffects (applyEffects resetVarsEffects s) f = freshState f) := by
+    (∀ f, classOf f = some .vars → f ∉ leaks →
+      applyEffects resetRandEffects (applyEffects resetVarsEffects s) f = freshState f) ∧
+    (∀ f, classOf f = some .rand → f ∉ leaks →
+      applyEffects resetRandEffects (applyEffects resetVarsEffects s) f = freshState f) := by
   constructor
-  · intro f hc
-    obtain ⟨j, hf⟩ := fact_of_class hc
+  · intro f hc hx
+    obtain ⟨j, hf⟩ := fact_of_class hc hx
     simp [classFact] at hf
     obtain ⟨⟨⟨⟨_, _⟩, _⟩, hr⟩, hv⟩ := hf
     rw [apply_untouched hr, apply_restores hv]
-  · intro f hc
-    obtain ⟨j, hf⟩ := fact_of_class hc
+  · intro f hc hx
+    obtain ⟨j, hf⟩ := fact_of_class hc hx
     simp [classFact] at hf
     obtain ⟨⟨⟨_, _⟩, _⟩, hr⟩ := hf
     rw [apply_restores hr]
 
 theorem reset_immutable (s : FState) (hs : Inv s) :
-    ∀ f, classOf f = some .immutable → applyEffects resetRandEffects (applyEffects resetVarsEffects s) f = freshState f := by
-  intro f hc
-  obtain ⟨j, hf⟩ := fact_of_class hc
+    ∀ f, classOf f = some .immutable → f ∉ leaks →
+      applyEffects resetRandEffects (applyEffects resetVarsEffects s) f = freshState f := by
+  intro f hc hx
+  obtain ⟨j, hf⟩ := fact_of_class hc hx
   simp [classFact] at hf
   obtain ⟨⟨⟨⟨_, _⟩, _⟩, hr⟩, hv⟩ := hf
-  rw [apply_untouched hr, apply_untouched hv, hs f hc]
+  rw [apply_untouched hr, apply_untouched hv, hs f hc hx]
 
 /-- `ExecProgram` = `New` followed by `Execute` (the entry effects are the identity on a fresh state) -/
-theorem execProgram_eq_new_execute (S : Sem Cfg Result) (ok : S.Ok) (cfg : Cfg) :
+theorem execProgram_eq_new_execute (S : Sem Cfg Result) (ok : S.Ok leaks) (cfg : Cfg) :
     (execProgram S cfg).2 = (exec S .plain cfg freshState).2 := by
   apply ok.run_obs
-  intro f c hc hobs
-  obtain ⟨j, hf⟩ := fact_of_class hc
+  intro f c hc hx hobs
+  obtain ⟨j, hf⟩ := fact_of_class hc hx
   have key : ∀ (hm : inMust f = false), applyEffects (entryEffects .plain) freshState f = freshState f →
       setCfg S cfg freshState f = preRun S .plain cfg freshState f := by
     intro hm h
